@@ -10,6 +10,7 @@ Correspondence:
 import os, json
 from concurrent.futures import ThreadPoolExecutor
 import vlib, nvmlib
+import c10_limits
 
 K_EXIT = 'c10:exit:nano_vm:main-result-dropped'
 K_INIT2 = 'c10:wrapper:init-runs-twice'
@@ -75,7 +76,7 @@ def capped(ck, cat, key, what, replay):
 
 def run(ck):
     b = ck.build('plain')
-    ck.gen(['gen_nvmconsts', 'gen_runnerflags'])
+    ck.gen(['gen_nvmconsts', 'gen_runnerflags', 'gen_limits'])
     ck.prove()
     nvmlib.coqchk(ck)
     ref = ck.nvref('c10')
@@ -140,10 +141,51 @@ def run(ck):
     if len(impl) != len(lines):
         ck.fail('c10:linecount', 'probe answered %d of %d lines' % (len(impl), len(lines)), dict(correspondence='nvm_probe vs nvref_c10'))
 
+    # ---------------- (A') declared limits through the real API: modules AT limit-1, limit, limit+1 (deterministic)
+    axes = c10_limits.load_axes()
+    ldescs = c10_limits.limit_descs(axes)
+    llines = ['rt ' + x[3] for x in ldescs]
+    li, prc, perr = nvmlib.probe_lines(probe, llines)
+    lm = vlib.run_lines(ref, llines, timeout=1500)
+    lw = vlib.run_lines(ref, ['wf ' + x[3] for x in ldescs], timeout=1500)
+    dist['limit_modules'] = {}
+    if prc != 0 or len(li) != len(llines):
+        k = len(li)
+        ck.fail('c10:limit:crash:%s:%s' % (ldescs[k][0], ldescs[k][1]) if k < len(ldescs) else 'c10:limit:crash',
+                'nvm_probe crashed / sanitizer or leak report on a module at a declared limit (rc=%s)' % prc,
+                dict(engine='nvm_probe(asan)', axis=ldescs[k][0] if k < len(ldescs) else None, count=ldescs[k][1] if k < len(ldescs) else None, stderr=perr[-2000:]))
+    for (axis, cnt, declared, dsc), a, m, w in zip(ldescs, li, lm, lw):
+        ck.count(('limit', axis, cnt), True)
+        dist['limit_modules'].setdefault(axis, []).append(cnt)
+        pa = parse_rt(a)
+        rep = dict(engine='nvm_probe(asan)', axis=axis, count=cnt, declared_limit=declared, macros=axes.get(axis, {}).get('macros'),
+                   input='rt ' + (dsc if len(dsc) < 3000 else dsc[:3000] + '...'), rebuild='c10_limits.limit_descs')
+        if pa and w == '1' and (pa[2] == 'NULL' or body_of_dump(pa[2]) != body_of_dump(pa[0]) or pa[3] != pa[1]):
+            ck.fail('c10:limit:roundtrip:%s:%d' % (axis, cnt),
+                    'a module with %d %s (declared limits on this axis: %s) does not survive serialize -> deserialize on the implementation: %s'
+                    % (cnt, axis, axes.get(axis, {}).get('macros'), 'refused' if pa[2] == 'NULL' else 'differs'), rep)
+        if a != m:
+            pm = parse_rt(m) or ['?'] * 4
+            which = [nm for nm, x, y in zip(('built', 'bytes', 'loaded', 'bytes2'), pa or ['?'] * 4, pm) if x != y]
+            ck.fail('c10:limit:corr:%s:%d' % (axis, cnt), 'nvm_probe and model differ on a module with %d %s (%s)' % (cnt, axis, ','.join(which)),
+                    dict(rep, correspondence='nvm_probe vs nvref_c10', differs=which))
+    sfiles = c10_limits.section_files(axes)
+    si, _, _ = nvmlib.probe_lines(probe, ['load ' + f.hex() for _, f in sfiles])
+    sm = vlib.run_lines(ref, ['load ' + f.hex() for _, f in sfiles])
+    for (n, f), a, m in zip(sfiles, si, sm):
+        ck.count(('limit', 'sections', n), True)
+        dist['limit_modules'].setdefault('sections', []).append(n)
+        if a != m:
+            ck.fail('c10:limit:corr:sections:%d' % n, 'real loader and model differ on a file with %d sections' % n,
+                    dict(correspondence='nvm_probe vs nvref_c10', input='load ' + f.hex(), observed_impl=a[:300], expected_model=m[:300]))
+
     # ---------------- (C) end to end (also yields the compiler-produced files for (B))
     progs = nvmlib.write_programs()
     for src in nvmlib.example_programs(rng, 45 if ck.thorough else 10):
         progs.append((os.path.basename(src)[:-5], src, None))
+    lprogs = c10_limits.write_programs(axes)          # programs AT the compiler's / format's declared limits
+    progs += lprogs
+    dist['limit_programs'] = len(lprogs); dist['limit_programs_rejected_by_compiler'] = []
     env = dict(os.environ, NANO_VIRT_LIB=nvmlib.wrapper_objdir(b))
     with ThreadPoolExecutor(8) as ex:
         results = list(ex.map(e2e_one, [(b, name, src, d, env) for name, src, ret in progs]))
@@ -153,7 +195,10 @@ def run(ck):
         run_, vm, wr = r['run'], r['vm'], r['wrap']
         ck.count(('e2e', name), True)
         if vm is None:
-            ck.fail('c10:e2e:emit-failed:' + name, 'nano_virt --emit-nvm failed although --run was attempted', dict(program=name, source=src))
+            if run_[0] not in (0, -9) and run_[1] == '' and r['wrap'] is None:
+                dist['limit_programs_rejected_by_compiler'].append(name)      # refused by the compiler on every path: consistent
+                continue
+            ck.fail('c10:e2e:emit-failed:' + name, 'nano_virt --emit-nvm failed although --run ran the program', dict(program=name, source=src, run=run_[:2]))
             continue
         if run_[0] == -9 or vm[0] == -9:
             ck.note('timeout in %s (run=%s vm=%s): skipped' % (name, run_[0], vm[0]))
@@ -195,6 +240,25 @@ def run(ck):
                     continue
                 exit_lines.append('exit %s %s' % (rn, 'err' if ret == 'err' else 'int %d' % ret))
                 exit_meta.append((name, rn, obs, ret))
+    # the fourth runner: `nano_vm --daemon` against ONE private nano_vmd (written + limit programs)
+    try:
+        from vmd_common import Daemon, via_daemon
+        with Daemon(b) as dm:
+            for (name, src, ret), r in zip(progs, results):
+                if ret is None or r['vm'] is None or r['run'][0] == -9:
+                    continue
+                rc, o, e = via_daemon(b, dm, os.path.join(d, name + '.nvm'), timeout=30)
+                dist['e2e_daemon_runs'] = dist.get('e2e_daemon_runs', 0) + 1
+                ck.count(('e2e-daemon', name), True)
+                o = o.decode('utf-8', 'replace')
+                if o != r['run'][1] or rc != r['run'][0]:
+                    ck.fail('c10:e2e:daemon:' + name, '`nano_vm --daemon` differs from --run (stdout equal: %s, exit %s vs %s)' % (o == r['run'][1], rc, r['run'][0]),
+                            dict(engine='nano_vm --daemon vs nano_virt --run', program=name, source=src, run_exit=r['run'][0], daemon_exit=rc,
+                                 run_stdout=r['run'][1][:600], daemon_stdout=o[:600], daemon_stderr=e[-300:].decode('utf-8', 'replace')))
+                exit_lines.append('exit daemon %s' % ('err' if ret == 'err' else 'int %d' % ret))
+                exit_meta.append((name, 'daemon', rc, ret))
+    except RuntimeError as ex:
+        ck.fail('c10:e2e:daemon-start', 'nano_vmd could not be started: %s' % str(ex)[:200], dict(engine='nano_vmd'))
     if exit_lines:
         pred = vlib.run_lines(ref, exit_lines)
         for (name, rn, obs, ret), p in zip(exit_meta, pred):
@@ -207,6 +271,8 @@ def run(ck):
     blines, bmeta = [], []
     for (name, src, ret), r in zip(progs, results):
         if r['nvm']:
+            if name.startswith('limit_str') and not any(name == 'limit_str%d' % L for L in axes.get('strings', {}).get('limits', [])):
+                continue          # the model's string pool is quadratic: one of the five string-limit files is enough here
             dist['compiled_files'] += 1
             blines.append('load ' + nvmlib.hexs(r['nvm'])); bmeta.append((name, r['nvm']))
     bi, prc, perr = nvmlib.probe_lines(probe, blines)
@@ -262,13 +328,21 @@ def run(ck):
 
 
 def replay(ck, d):
-    b = ck.build('plain'); ck.gen(['gen_nvmconsts', 'gen_runnerflags'])
+    b = ck.build('plain'); ck.gen(['gen_nvmconsts', 'gen_runnerflags', 'gen_limits'])
     ref = ck.nvref('c10'); probe = ck.probe('nvm_probe.c', 'asan')
+    if d.get('rebuild') == 'c10_limits.limit_descs':
+        ck.gen(['gen_limits'])
+        ds = [x for x in c10_limits.limit_descs(c10_limits.load_axes()) if x[0] == d.get('axis') and x[1] == d.get('count')]
+        if ds:
+            d = dict(d, input='rt ' + ds[0][3])
     if d.get('input'):
         l = d['input']
         a, rc, e = nvmlib.probe_lines(probe, [l]); m = vlib.run_lines(ref, [l])
         print('input:', l[:300]); print('impl :', (a[0][:600] if a else None), '(rc=%s)' % rc); print('model:', m[0][:600] if m else None)
         bad = rc != 0 or not a or a[0] != m[0]
+        pa = parse_rt(a[0]) if a else None
+        if pa and (pa[2] == 'NULL' or pa[3] != pa[1]):
+            bad = True; print('round trip on the implementation: loaded =', pa[2][:60], '; bytes stable:', pa[3] == pa[1])
         print('REPRODUCED' if bad else 'not reproduced')
         return 1 if bad else 0
     src = d.get('source')
